@@ -544,6 +544,8 @@ func runC02(cfg Config) {
 
 	// (f) IndexFromFile under recorded cooperative schedules, traces validated against the Lean machine
 	runC02Par(cfg, rep, m, rng)
+	// (g) the digest changes within the process: IDs must follow it, null chunks included (c02digest.go)
+	c02DigestSwitch(cfg, rep, rng)
 
 	// (e) casync-pinned reference
 	if in, err := os.ReadFile(filepath.Join(cfg.Repo, "testdata", "chunker.input")); err == nil {
